@@ -16,9 +16,11 @@ import (
 	"net"
 	"os"
 	"path/filepath"
+	"sort"
 	"strconv"
 	"strings"
 	"sync"
+	"sync/atomic"
 	"time"
 
 	"github.com/mgtv-tech/redis-GunYu/config"
@@ -62,6 +64,10 @@ type source struct {
 	stream   []byte  // bytes base+1 ...
 	ends     []int64 // absolute end offset of every stream command
 	keyOf    []int
+	names    []string           // element each stream command appends ("v<i>" + a letter of the history that wrote it)
+	endsOf   map[string][]int64 // command ends of a history that has been superseded (offsets under that id)
+	switchOf map[string]int64   // offset up to which a superseded id and its successor share the stream
+	events   []map[string]interface{}
 	bl       int64 // first offset still in the backlog
 	keys     [][]byte
 	initial  [][][]byte // initial list of each key
@@ -73,6 +79,35 @@ type source struct {
 
 func (s *source) M() int64 { return s.base + int64(len(s.stream)) }
 
+// stamp orders the events of the fake master and of the fake target in one sequence (taken under the lock that
+// protects the state the event describes)
+var stamp atomic.Int64
+
+// ev records an event of the master's life; the caller holds s.mu
+func (s *source) ev(kind string, f map[string]interface{}) {
+	f["ev"], f["st"] = kind, stamp.Add(1)
+	s.events = append(s.events, f)
+}
+
+// cmdsAt: how many commands of the history `id` end at or before byte offset off
+func (s *source) cmdsAt(id string, off int64) int {
+	ends := s.ends
+	if e, ok := s.endsOf[id]; ok && len(e) > 0 && id != s.id1 && off > s.switchOf[id] && off <= e[len(e)-1] {
+		// an offset of what the old master wrote beyond the switch; everything else is counted on the current stream
+		// (an old id can label offsets of the new stream: syncMeta keeps the id INFO reported)
+		ends = e
+	}
+	n := 0
+	for _, e := range ends {
+		if e <= off {
+			n++
+		}
+	}
+	return n
+}
+
+func suffixOf(id string) string { return map[string]string{"A": "", "B": "b", "C": "c"}[id] }
+
 // dataset at offset m as an RDB
 func (s *source) snapshot(m int64) []byte {
 	var ents []*rdbgen.Entry
@@ -80,7 +115,7 @@ func (s *source) snapshot(m int64) []byte {
 		l := append([][]byte{}, s.initial[ki]...)
 		for ci, e := range s.ends {
 			if e <= m && s.keyOf[ci] == ki {
-				l = append(l, []byte(fmt.Sprintf("v%d", ci+1)))
+				l = append(l, []byte(s.names[ci]))
 			}
 		}
 		if len(l) == 0 {
@@ -99,6 +134,7 @@ func (s *source) serve(c net.Conn) {
 	defer c.Close()
 	r := bufio.NewReader(c)
 	w := bufio.NewWriter(c)
+	seen1, seen2 := "?", "none" // the ids this connection was told by INFO
 	for {
 		line, err := r.ReadString('\n')
 		if err != nil {
@@ -140,6 +176,10 @@ func (s *source) serve(c net.Conn) {
 			if s.id2 != "" {
 				id2, sec = idOf[s.id2], s.second
 			}
+			seen1, seen2 = s.id1, "none"
+			if s.id2 != "" {
+				seen2 = s.id2
+			}
 			body := fmt.Sprintf("# Server\r\nredis_version:7.0.0\r\n# Replication\r\nrole:master\r\nconnected_slaves:0\r\nmaster_replid:%s\r\nmaster_replid2:%s\r\nmaster_repl_offset:%d\r\nsecond_repl_offset:%d\r\nrepl_backlog_first_byte_offset:%d\r\n",
 				idOf[s.id1], id2, s.M(), sec, s.bl)
 			s.mu.Unlock()
@@ -171,6 +211,11 @@ func (s *source) serve(c net.Conn) {
 				next = off
 			}
 			s.obs = append(s.obs, o)
+			known := -1 // commands the request says it has (-1: "nothing", an offset before the stream)
+			if off-1 >= s.base {
+				known = s.cmdsAt(o.Id, off-1)
+			}
+			s.ev("Psync", map[string]interface{}{"rid": o.Id, "off": known, "full": full, "m": len(s.ends), "seen1": seen1, "seen2": seen2})
 			s.conns = append(s.conns, c)
 			s.mu.Unlock()
 			if w.Flush() != nil {
@@ -215,7 +260,8 @@ func (s *source) serve(c net.Conn) {
 func (s *source) appendCmd(key int) {
 	s.mu.Lock()
 	idx := len(s.ends) + 1
-	b := hx.EncodeCmd([]byte("RPUSH"), s.keys[key], []byte(fmt.Sprintf("v%d", idx)))
+	name := fmt.Sprintf("v%d%s", idx, suffixOf(s.id1))
+	b := hx.EncodeCmd([]byte("RPUSH"), s.keys[key], []byte(name))
 	if len(s.ends) == 0 || idx%5 == 0 {
 		// a master states the database first and sends keep-alives
 		pre := hx.EncodeCmd([]byte("SELECT"), []byte("0"))
@@ -227,6 +273,8 @@ func (s *source) appendCmd(key int) {
 	s.stream = append(s.stream, b...)
 	s.ends = append(s.ends, s.M())
 	s.keyOf = append(s.keyOf, key)
+	s.names = append(s.names, name)
+	s.ev("Write", map[string]interface{}{"i": idx, "k": key + 1, "w": s.id1})
 	s.cond.Broadcast()
 	s.mu.Unlock()
 }
@@ -251,7 +299,117 @@ type scenario struct {
 	faults []string
 }
 
-func runScenario(sc *scenario, tr *hx.Trace, work string, r *hx.Rng) {
+// elemOf projects a list element onto the vocabulary of Pipeline.tla: stream command n written under history w,
+// or (n < 0) the -n-th element the key held before the stream began
+func elemOf(e string) map[string]interface{} {
+	switch {
+	case strings.HasPrefix(e, "v"):
+		w := "A"
+		if strings.HasSuffix(e, "b") {
+			w = "B"
+		} else if strings.HasSuffix(e, "c") {
+			w = "C"
+		}
+		if n, err := strconv.Atoi(strings.TrimRight(e[1:], "bc")); err == nil && n > 0 {
+			return map[string]interface{}{"n": n, "w": w}
+		}
+	case strings.HasPrefix(e, "s") && strings.Contains(e, "."):
+		if j, err := strconv.Atoi(e[strings.IndexByte(e, '.')+1:]); err == nil && j > 0 {
+			return map[string]interface{}{"n": -j, "w": "init"}
+		}
+	}
+	return map[string]interface{}{"n": 0, "w": "?"}
+}
+
+// emitEvents writes the run as the event sequence trace/TracePipeline.tla replays on Pipeline.tla: the master's
+// events and the commands the target executed, in the order of their stamps (deterministic projection only)
+func emitEvents(tr2 *hx.Trace, sc *scenario, src *source, tgt *fakeredis.Server, restored map[string][][][]byte) {
+	keyIdx := map[string]int{}
+	for i, k := range src.keys {
+		keyIdx[string(k)] = i + 1
+	}
+	tgt.Lock()
+	log := append([]fakeredis.Entry{}, tgt.Log...)
+	tgt.Unlock()
+	src.mu.Lock()
+	defer src.mu.Unlock()
+	evs := append([]map[string]interface{}{}, src.events...)
+	ops := func(e fakeredis.Entry) []map[string]interface{} {
+		if e.Err != "" || len(e.Args) == 0 {
+			return nil
+		}
+		key := string(e.Args[0])
+		var out []map[string]interface{}
+		switch e.Name {
+		case "rpush":
+			if ki, ok := keyIdx[key]; ok {
+				for _, a := range e.Args[1:] {
+					o := elemOf(string(a))
+					o["t"], o["k"] = "push", ki
+					out = append(out, o)
+				}
+			}
+		case "del", "unlink":
+			for _, a := range e.Args {
+				if ki, ok := keyIdx[string(a)]; ok {
+					out = append(out, map[string]interface{}{"t": "del", "k": ki})
+				}
+			}
+		case "restore":
+			if ki, ok := keyIdx[key]; ok {
+				els := []interface{}{}
+				if q := restored[key]; len(q) > 0 {
+					for _, a := range q[0] {
+						els = append(els, elemOf(string(a)))
+					}
+					restored[key] = q[1:]
+				}
+				out = append(out, map[string]interface{}{"t": "restore", "k": ki, "els": els})
+			}
+		case "hset":
+			if key == cpName {
+				for i := 1; i+1 < len(e.Args); i += 2 {
+					f := string(e.Args[i])
+					if strings.HasSuffix(f, "_offset") {
+						rid := letter(strings.TrimSuffix(f, "_offset"))
+						off, _ := strconv.ParseInt(string(e.Args[i+1]), 10, 64)
+						out = append(out, map[string]interface{}{"t": "cp", "rid": rid, "off": src.cmdsAt(rid, off), "bytes": off})
+					}
+				}
+			}
+		}
+		return out
+	}
+	for i := 0; i < len(log); i++ {
+		e := log[i]
+		if e.Blk > 0 {
+			// everything one EXEC applied is one event
+			all := []interface{}{}
+			j := i
+			for ; j < len(log) && log[j].Blk == e.Blk; j++ {
+				for _, o := range ops(log[j]) {
+					all = append(all, o)
+				}
+			}
+			i = j - 1
+			if len(all) > 0 {
+				evs = append(evs, map[string]interface{}{"ev": "Exec", "st": e.Stamp, "ops": all})
+			}
+			continue
+		}
+		for _, o := range ops(e) {
+			o["ev"], o["st"] = map[string]string{"push": "Push", "del": "Del", "restore": "Restore", "cp": "Cp"}[o["t"].(string)], e.Stamp
+			evs = append(evs, o)
+		}
+	}
+	sort.SliceStable(evs, func(a, b int) bool { return evs[a]["st"].(int64) < evs[b]["st"].(int64) })
+	tr2.Emit(map[string]interface{}{"ev": "PReset", "id": sc.id, "txn": sc.txn, "disk": sc.disk, "nkeys": sc.nkeys, "faults": sc.faults})
+	for _, e := range evs {
+		tr2.Emit(e)
+	}
+}
+
+func runScenario(sc *scenario, tr *hx.Trace, tr2 *hx.Trace, work string, r *hx.Rng) {
 	src := &source{id1: "A", base: int64(1000 + r.Intn(9000))}
 	src.cond = sync.NewCond(&src.mu)
 	src.bl = src.base + 1
@@ -293,6 +451,8 @@ func runScenario(sc *scenario, tr *hx.Trace, work string, r *hx.Rng) {
 	}
 	defer tgt.Close()
 	var decMu sync.Mutex
+	restored := map[string][][][]byte{} // per key: the lists the RESTOREs produced, in order
+	tgt.StampFn = func() int64 { return stamp.Add(1) }
 	tgt.RestoreDecoder = func(key []byte, payload []byte) (*fakeredis.Value, string) {
 		// the payload of a list written by rdbgen: the harness re-derives the value from the source model,
 		// the snapshot offset being the newest full resync the master answered
@@ -313,9 +473,10 @@ func runScenario(sc *scenario, tr *hx.Trace, work string, r *hx.Rng) {
 			l := append([][]byte{}, src.initial[ki]...)
 			for ci, e := range src.ends {
 				if e <= m && src.keyOf[ci] == ki {
-					l = append(l, []byte(fmt.Sprintf("v%d", ci+1)))
+					l = append(l, []byte(src.names[ci]))
 				}
 			}
+			restored[string(key)] = append(restored[string(key)], l)
 			return &fakeredis.Value{Type: "list", List: l}, ""
 		}
 		return nil, "Bad data format"
@@ -324,10 +485,24 @@ func runScenario(sc *scenario, tr *hx.Trace, work string, r *hx.Rng) {
 	dir := filepath.Join(work, fmt.Sprintf("e%d", sc.id))
 	defer os.RemoveAll(dir)
 	var ch syncer.Channel
-	if sc.disk {
-		ch = syncer.NewStoreChannel(syncer.StorerConf{InputId: "verif", Dir: dir, MaxSize: 1 << 30, LogSize: 16 + 4096})
-	} else {
-		ch = syncer.NewMemoryChannel(syncer.MemoryConf{InputId: "verif", MaxSize: 1 << 30, LogSize: 4096})
+	newChannel := func() {
+		if sc.disk {
+			ch = syncer.NewStoreChannel(syncer.StorerConf{InputId: "verif", Dir: dir, MaxSize: 1 << 30, LogSize: 16 + 4096})
+		} else {
+			ch = syncer.NewMemoryChannel(syncer.MemoryConf{InputId: "verif", MaxSize: 1 << 30, LogSize: 4096})
+		}
+	}
+	newChannel()
+	// replies to the requests of a snapshot replay can be withheld (a full sync that takes its time)
+	var holdSnap atomic.Bool
+	var heldN atomic.Int64
+	release := make(chan struct{})
+	tgt.Hold = func(connID int, name string, args [][]byte) <-chan struct{} {
+		if holdSnap.Load() && (name == "del" || name == "rpush" || name == "restore") {
+			heldN.Add(1)
+			return release
+		}
+		return nil
 	}
 	rcfg := config.RedisConfig{Addresses: []string{tgt.Addr()}, Type: config.RedisTypeStandalone, Otype: config.RedisTypeStandalone, Version: "7.0.0"}
 	restore, par := r.Bool(), 1+r.Intn(2)
@@ -335,6 +510,7 @@ func runScenario(sc *scenario, tr *hx.Trace, work string, r *hx.Rng) {
 	var curIn *syncer.RedisInput
 	var curOut *syncer.RedisOutput
 	stopAll := false
+	procRestart := false
 	restarts := 0
 	newRun := func() {
 		out := syncer.NewRedisOutput(syncer.RedisOutputConfig{
@@ -358,6 +534,16 @@ func runScenario(sc *scenario, tr *hx.Trace, work string, r *hx.Rng) {
 			runMu.Unlock()
 			err := in.Run()
 			runMu.Lock()
+			if procRestart {
+				// the process is restarted: nothing survives but the target and what the cache keeps on disk
+				procRestart = false
+				curOut.Close()
+				ch.Close()
+				newChannel()
+				newRun()
+				runMu.Unlock()
+				continue
+			}
 			if stopAll || err == nil || restarts >= 8 {
 				runMu.Unlock()
 				done <- err
@@ -371,6 +557,43 @@ func runScenario(sc *scenario, tr *hx.Trace, work string, r *hx.Rng) {
 		}
 	}()
 
+	// wait for the target to hold every element of every list
+	finalLists := func() [][]string {
+		outl := make([][]string, sc.nkeys)
+		tgt.Lock()
+		for ki, k := range src.keys {
+			outl[ki] = []string{}
+			if v := tgt.DBs[0][string(k)]; v != nil && v.Type == "list" {
+				for _, e := range v.List {
+					outl[ki] = append(outl[ki], string(e))
+				}
+			}
+		}
+		tgt.Unlock()
+		return outl
+	}
+	complete := func() bool {
+		ls := finalLists()
+		src.mu.Lock()
+		defer src.mu.Unlock()
+		for ki := range src.keys {
+			seen := map[string]bool{}
+			for _, e := range ls[ki] {
+				seen[e] = true
+			}
+			for _, e := range src.initial[ki] {
+				if !seen[string(e)] {
+					return false
+				}
+			}
+			for ci, k := range src.keyOf {
+				if k == ki && !seen[src.names[ci]] {
+					return false
+				}
+			}
+		}
+		return true
+	}
 	// the master's life: commands, interleaved with the scenario's faults
 	perPhase := sc.ncmds / (len(sc.faults) + 1)
 	if perPhase < 1 {
@@ -395,17 +618,123 @@ func runScenario(sc *scenario, tr *hx.Trace, work string, r *hx.Rng) {
 			src.mu.Lock()
 			src.dropAt = src.M() + int64(1+r.Intn(40))
 			src.mu.Unlock()
-		case "failover":
-			// a replica is promoted: new id, the previous one stays valid up to the switch offset
+		case "failover", "failoverloss":
+			// a replica is promoted: new id, the previous one stays valid up to the switch offset. "loss": the replica
+			// had not received the last commands; what the old master sent beyond it is not part of the new history
 			src.mu.Lock()
+			keep := len(src.ends)
+			if f == "failoverloss" && keep > 0 {
+				keep -= 1 + r.Intn(2)
+				if keep < 0 {
+					keep = 0
+				}
+			}
+			if src.endsOf == nil {
+				src.endsOf = map[string][]int64{}
+			}
+			src.endsOf[src.id1] = append([]int64{}, src.ends...)
+			if keep < len(src.ends) {
+				cut := src.base
+				if keep > 0 {
+					cut = src.ends[keep-1]
+				}
+				src.stream = src.stream[:cut-src.base]
+				src.ends, src.keyOf, src.names = src.ends[:keep], src.keyOf[:keep], src.names[:keep]
+			}
+			if src.switchOf == nil {
+				src.switchOf = map[string]int64{}
+			}
+			src.switchOf[src.id1] = src.M()
 			src.id2, src.second, src.id1 = src.id1, src.M()+1, nextID
+			src.ev("Failover", map[string]interface{}{"id": nextID, "k": keep})
 			src.mu.Unlock()
 			nextID = "C"
 			src.dropNow()
+		case "restartinfull":
+			// the promoted replica lacks the newest commands, the target (transactional mode) already has them: the
+			// tool is sent into a full sync; its process is restarted while the snapshot is being replayed
+			waitUntil := func(f func() bool, d time.Duration) bool {
+				dl := time.Now().Add(d)
+				for time.Now().Before(dl) {
+					if f() {
+						return true
+					}
+					time.Sleep(time.Millisecond)
+				}
+				return false
+			}
+			waitUntil(complete, 5*time.Second) // the target is as far as the old master
+			src.mu.Lock()
+			keep := len(src.ends) - 1 - r.Intn(2)
+			if keep < 0 {
+				keep = 0
+			}
+			if src.endsOf == nil {
+				src.endsOf = map[string][]int64{}
+			}
+			src.endsOf[src.id1] = append([]int64{}, src.ends...)
+			if keep < len(src.ends) {
+				cut := src.base
+				if keep > 0 {
+					cut = src.ends[keep-1]
+				}
+				src.stream = src.stream[:cut-src.base]
+				src.ends, src.keyOf, src.names = src.ends[:keep], src.keyOf[:keep], src.names[:keep]
+			}
+			if src.switchOf == nil {
+				src.switchOf = map[string]int64{}
+			}
+			src.switchOf[src.id1] = src.M()
+			src.id2, src.second, src.id1 = src.id1, src.M()+1, nextID
+			src.ev("Failover", map[string]interface{}{"id": nextID, "k": keep})
+			nFull := 0
+			for _, o := range src.obs {
+				if o.Reply == "full" {
+					nFull++
+				}
+			}
+			src.mu.Unlock()
+			nextID = "C"
+			holdSnap.Store(true)
+			heldN.Store(0)
+			src.dropNow()
+			for i := 0; i < 4; i++ { // the new master is written to: its stream passes the offset the target had
+				src.appendCmd(r.Intn(sc.nkeys))
+				sent++
+			}
+			full := waitUntil(func() bool {
+				src.mu.Lock()
+				defer src.mu.Unlock()
+				n := 0
+				for _, o := range src.obs {
+					if o.Reply == "full" {
+						n++
+					}
+				}
+				return n > nFull
+			}, 8*time.Second)
+			if full && waitUntil(func() bool { return heldN.Load() > 0 }, 5*time.Second) {
+				runMu.Lock()
+				procRestart = true
+				in := curIn
+				runMu.Unlock()
+				in.Stop()
+				stamp.Add(1)
+				src.mu.Lock()
+				src.ev("ProcRestart", map[string]interface{}{"cacheLost": !sc.disk})
+				src.mu.Unlock()
+			}
+			holdSnap.Store(false)
+			tgt.Crash() // what the dead process still had in flight does not reach the target
+			close(release)
+			release = make(chan struct{})
+			time.Sleep(2 * time.Millisecond)
+			tgt.Revive()
 		case "losebacklog":
 			// the backlog no longer reaches back: the next connection gets a full resync
 			src.mu.Lock()
 			src.bl = src.M() + 2
+			src.ev("LoseBacklog", map[string]interface{}{})
 			src.mu.Unlock()
 			emitCmds(1)
 			src.dropNow()
@@ -417,40 +746,6 @@ func runScenario(sc *scenario, tr *hx.Trace, work string, r *hx.Rng) {
 	}
 	emitCmds(sc.ncmds)
 
-	// wait for the target to hold every element of every list
-	finalLists := func() [][]string {
-		outl := make([][]string, sc.nkeys)
-		tgt.Lock()
-		for ki, k := range src.keys {
-			outl[ki] = []string{}
-			if v := tgt.DBs[0][string(k)]; v != nil && v.Type == "list" {
-				for _, e := range v.List {
-					outl[ki] = append(outl[ki], string(e))
-				}
-			}
-		}
-		tgt.Unlock()
-		return outl
-	}
-	complete := func() bool {
-		ls := finalLists()
-		for ki := range src.keys {
-			want := len(src.initial[ki])
-			for _, k := range src.keyOf {
-				if k == ki {
-					want++
-				}
-			}
-			seen := map[string]bool{}
-			for _, e := range ls[ki] {
-				seen[e] = true
-			}
-			if len(seen) < want {
-				return false
-			}
-		}
-		return true
-	}
 	deadline := time.Now().Add(40 * time.Second)
 	ended := false
 	var runErr error
@@ -500,8 +795,8 @@ func runScenario(sc *scenario, tr *hx.Trace, work string, r *hx.Rng) {
 				j, _ := strconv.Atoi(e[strings.IndexByte(e, '.')+1:])
 				proj[ki] = append(proj[ki], -j)
 			case strings.HasPrefix(e, "v"):
-				i, _ := strconv.Atoi(e[1:])
-				if i >= 1 && i <= len(src.keyOf) && src.keyOf[i-1] == ki {
+				i, _ := strconv.Atoi(strings.TrimRight(e[1:], "bc"))
+				if i >= 1 && i <= len(src.keyOf) && src.keyOf[i-1] == ki && src.names[i-1] == e {
 					proj[ki] = append(proj[ki], ord[i])
 				} else {
 					proj[ki] = append(proj[ki], 1000000+i) // an element of another key / unknown
@@ -530,6 +825,9 @@ func runScenario(sc *scenario, tr *hx.Trace, work string, r *hx.Rng) {
 			es = es[:200]
 		}
 	}
+	if tr2 != nil {
+		emitEvents(tr2, sc, src, tgt, restored)
+	}
 	tr.Emit(map[string]interface{}{"ev": "E2E", "id": sc.id, "txn": sc.txn, "disk": sc.disk, "faults": sc.faults, "ncmds": len(src.keyOf),
 		"initial": ninit, "total": total, "lists": proj, "complete": ok, "ended": ended, "restarts": restarts, "err": es, "psync": obs, "base": src.base})
 }
@@ -542,11 +840,19 @@ func main() {
 	shard := flag.Int("shard", 0, "")
 	shards := flag.Int("shards", 1, "")
 	work := flag.String("work", os.TempDir(), "")
+	only := flag.Int("only", 0, "run only the scenario with this id")
+	eventsPath := flag.String("events", "", "write the event-level trace of every run (for trace/TracePipeline.tla) to this file")
 	flag.Parse()
 	hx.QuietLogs()
 	tr, err := hx.NewTrace(*outp)
 	if err != nil {
 		hx.Fatal("%v", err)
+	}
+	var tr2 *hx.Trace
+	if *eventsPath != "" {
+		if tr2, err = hx.NewTrace(*eventsPath); err != nil {
+			hx.Fatal("%v", err)
+		}
 	}
 	base, err := os.MkdirTemp(*work, "e2e")
 	if err != nil {
@@ -571,19 +877,28 @@ func main() {
 	kinds := map[string]int{}
 	pool := []string{"drop", "dropmid", "failover", "losebacklog", "targetcrash"}
 	for s := 0; s < *n; s++ {
-		if s%*shards != *shard {
+		if s%*shards != *shard || (*only > 0 && s+1 != *only) {
 			continue
 		}
 		r := hx.NewRng(*seed*32452843 + uint64(s))
 		sc := &scenario{id: s + 1, txn: r.Bool(), disk: r.Bool(), nkeys: 1 + r.Intn(3), ncmds: 6 + r.Intn(18)}
 		for f := 0; f < r.Intn(3); f++ {
-			sc.faults = append(sc.faults, pool[r.Intn(len(pool))])
+			x := pool[r.Intn(len(pool))]
+			if x == "failover" && sc.txn && r.Bool() {
+				// the promoted replica lacks the newest commands. Transactional mode only: a ticker-driven target may
+				// already hold, beyond its stored position, commands of the old master that the new history does not have
+				x = "failoverloss"
+				if r.Bool() {
+					x = "restartinfull"
+				}
+			}
+			sc.faults = append(sc.faults, x)
 		}
 		if sc.faults == nil {
 			sc.faults = []string{}
 		}
 		wd.Kick(fmt.Sprintf("scenario %d %v", sc.id, sc.faults))
-		runScenario(sc, tr, base, r)
+		runScenario(sc, tr, tr2, base, r)
 		nScen++
 		for _, f := range sc.faults {
 			kinds[f]++
@@ -591,6 +906,11 @@ func main() {
 	}
 	if err := tr.Close(); err != nil {
 		hx.Fatal("%v", err)
+	}
+	if tr2 != nil {
+		if err := tr2.Close(); err != nil {
+			hx.Fatal("%v", err)
+		}
 	}
 	hx.WriteJSON(*statsPath, map[string]interface{}{"scenarios": nScen, "faults": kinds})
 	fmt.Fprintf(os.Stderr, "e2edrv: %d scenarios %v\n", nScen, kinds)
